@@ -823,6 +823,13 @@ func c07observe(t *c07t, r reflect.Value, env *c07env) (v *cval) {
 		v.Bad = "invalid"
 		return
 	}
+	if r.Type() != t.rt && (t.K == ckAny || t.K == ckErr) && r.Kind() != reflect.Interface && r.Type().AssignableTo(t.rt) {
+		// Eval of an interface-typed expression may hand out the dynamic value: what the host gets
+		// through Interface() is the same
+		ev := reflect.New(t.rt).Elem()
+		ev.Set(r)
+		r = ev
+	}
 	if r.Type() != t.rt {
 		v.Bad, v.BadMsg = "type", r.Type().String()
 		return
